@@ -181,11 +181,18 @@ where
                 // We don't have a valid connection - we must reconnect.
                 if src.inner.is_none() {
                     warn!("Reconnecting");
-                    match inner::connect(&src.config).await {
-                        Ok(inner) => src.inner = Some(inner),
-                        Err(err) => {
+                    // The connect (tcp connect, registration, identity check) must
+                    // not wait forever on a silent terminal.
+                    match tokio::time::timeout(TIMEOUT, inner::connect(&src.config)).await {
+                        Ok(Ok(inner)) => src.inner = Some(inner),
+                        Ok(Err(err)) => {
                             warn!("Failed to reconnect: {err:?}");
                             yield Err(err);
+                            continue;
+                        }
+                        Err(_) => {
+                            warn!("Timeout while reconnecting");
+                            yield Err(Error::new(ErrorKind::TimedOut, "Timeout while reconnecting").into());
                             continue;
                         }
                     }
